@@ -400,6 +400,7 @@ def run(P, R, tier):
     putkey_rule(P, R)
     progkeep_rule(P, R)
     linestore_rule(P, R)
+    powargs_rule(P, R)
     onrecord_rule(P, R)
     R.undecided += ["(e) arithmetic and string results for all programs", "(f) malformed programs produce a BASIC error, never a wrong value or a hang"]
     ens = [e for e in P.enums.values() if e["q"].endswith("BASIC_TOKEN")]
@@ -560,9 +561,11 @@ def run(P, R, tier):
     # power
     f = fn("upexpr")
     ok = any(x[0] == "While" and any(enum_ref(y) == "tokup" for y in T.walk(x[2])) for x in T.walk(f["body"])) and \
-        any(T.callee_name(c) == "exp" and any(T.callee_name(d) == "log" for d in T.calls(c)) for c in T.calls(f["body"]))
-    (R.ok if ok else lambda *a, **k: R.violation("C17.ops", "upexpr:tokup", "^ level does not compute exp(y*log(x)) on tokup", file=f["file"], line=f["line"], function=f["q"]))(
-        "C17.ops", "upexpr:tokup", "^ -> exp(y*log x) with sign handling")
+        any(T.callee_name(c) == "pow" and len(c[4]) == 2 for c in T.calls(f["body"])) and \
+        not any(T.callee_name(c) == "exp" and any(T.callee_name(d) == "log" for d in T.calls(c)) for c in T.calls(f["body"]))
+    (R.ok if ok else lambda *a, **k: R.violation("C17.ops", "upexpr:tokup", "the ^ level does not compute pow(x, y) on tokup (exp(y*log(x)) is inexact for integer operands: "
+                                                 "2^3 = 8 is false, FLOOR(2^3) = 7)", file=f["file"], line=f["line"], function=f["q"]))(
+        "C17.ops", "upexpr:tokup", "^ -> pow(x, y) with sign handling")
     # unary minus / NOT in factor
     f = fn("factor")
     for tok, op, desc in (("tokminus", "-", "unary minus"), ("toknot", "~", "NOT -> ~")):
@@ -1185,3 +1188,38 @@ def linestore_rule(P, R):
             R.violation(RULE, inst, "program 10 20 30, new line %d: the walk stops before position %d (%d expected) and the line is %s (%s expected): a line entered again "
                         "does not replace the stored one" % (cur, idx[0], want_idx, "replaced" if replaced else "inserted", "replaced" if want_rep else "inserted"),
                         file=f["file"], line=wk[1], function=f["q"])
+
+
+def powargs_rule(P, R):
+    """x ^ y: upexpr holds the base in `n` (the left operand, parsed first) and the exponent in `n2` (parsed by the recursive call after
+    the ^ token).  Every pow() call of the function must take the base from n and the exponent from n2 - swapped operands still give a
+    number (2^3 -> 9)."""
+    RULE = "C17.powargs"
+    R.rule(RULE, "upexpr: pow(base, exponent) takes the base from the left operand and the exponent from the right operand", minimum=2)
+    f = P.one("PBasic::upexpr")
+    # left operand: the local assigned from factor(); right operand: the local assigned from the recursive upexpr()
+    left = right = None
+    for x in T.walk(f["body"]):
+        tgt = val = None
+        if x[0] == "Bin" and x[2] == "=":
+            tgt, val = T.strip_casts(x[3]), T.strip_casts(x[4])
+        elif x[0] == "Call" and T.callee_name(x) == "operator=" and len(x[4]) == 2:      # valrec is a class: assignment is an operator call
+            tgt, val = T.strip_casts(x[4][0]), T.strip_casts(x[4][1])
+        if T.is_node(tgt) and tgt[0] == "Ref" and T.is_node(val) and val[0] == "Call":
+            if T.callee_name(val) == "factor":
+                left = tgt[3]
+            elif T.callee_name(val) == "upexpr":
+                right = tgt[3]
+    pows = [c for c in T.calls(f["body"]) if T.callee_name(c) == "pow" and len(c[4]) == 2]
+    if left is None or right is None or len(pows) < 2:
+        R.anchor_missing(RULE, "upexpr: operands (%s, %s) or pow calls (%d) not found" % (left, right, len(pows)))
+        return
+    for c in pows:
+        a0 = {y[3] for y in T.walk(c[4][0]) if y[0] == "Ref" and y[2] == "local"}
+        a1 = {y[3] for y in T.walk(c[4][1]) if y[0] == "Ref" and y[2] == "local"}
+        inst = "pow@%d" % (c[1] - f["line"])
+        if a0 == {left} and a1 == {right}:
+            R.ok(RULE, inst, "pow(%s, %s)" % (T.text(c[4][0])[:20], T.text(c[4][1])[:20]))
+        else:
+            R.violation(RULE, inst, "pow(%s, %s): the base must come from the left operand `%s` and the exponent from the right operand `%s`"
+                        % (T.text(c[4][0])[:30], T.text(c[4][1])[:30], left, right), file=f["file"], line=c[1], function=f["q"])
